@@ -40,8 +40,8 @@ func main() {
 func runCmd(args []string) {
 	fs := flag.NewFlagSet("run", flag.ExitOnError)
 	h := fs.String("h", "", "harness")
-	p := fs.Int("P", 1, "preemption bound")
-	gr := fs.Int("gran", 1, "granularity")
+	p := fs.Int("P", 0, "preemption bound")
+	gr := fs.Int("gran", 0, "granularity")
 	nw := fs.Int("j", 16, "workers")
 	reuse := fs.Bool("reuse", true, "pool reuse")
 	mo := fs.Bool("maporder", false, "fork map order")
